@@ -73,8 +73,9 @@ def check_base(ev):
     return None if log == want else f"base dispatch of {type(ev).__name__}: got {[m for m, _ in log]} want {[m for m, _ in want]}"
 
 
-def check_pattern(ev, inc, exc, cs, igd):
-    h, log = recorder(E.PatternMatchingEventHandler, patterns=inc, ignore_patterns=exc, ignore_directories=igd, case_sensitive=cs)
+def check_pattern(ev, inc, exc, cs, igd, hl=None):
+    h, log = hl if hl is not None else recorder(E.PatternMatchingEventHandler, patterns=inc, ignore_patterns=exc, ignore_directories=igd, case_sensitive=cs)
+    del log[:]
     want_exc = False
     want = []
     if not (igd and type(ev).__name__ in ISDIR):
@@ -101,8 +102,9 @@ def check_pattern(ev, inc, exc, cs, igd):
     return None
 
 
-def check_regex(ev, rx, irx, cs, igd):
-    h, log = recorder(E.RegexMatchingEventHandler, regexes=rx, ignore_regexes=irx, ignore_directories=igd, case_sensitive=cs)
+def check_regex(ev, rx, irx, cs, igd, hl=None):
+    h, log = hl if hl is not None else recorder(E.RegexMatchingEventHandler, regexes=rx, ignore_regexes=irx, ignore_directories=igd, case_sensitive=cs)
+    del log[:]
     fl = 0 if cs else re.IGNORECASE
     rxs = [re.compile(r, fl) for r in ([r".*"] if rx is None else ([rx] if isinstance(rx, str) else rx))]
     irxs = [re.compile(r, fl) for r in ([] if irx is None else irx)]
@@ -142,8 +144,34 @@ def check_filter(paths, inc, exc, cs):
     return None
 
 
+def check_history(kind, cfg, evs):
+    """one long-lived handler: what it does with an event is a function of that event alone, not of earlier ones"""
+    if kind == "pattern":
+        inc, exc, cs, igd = cfg
+        hl = recorder(E.PatternMatchingEventHandler, patterns=inc, ignore_patterns=exc, ignore_directories=igd, case_sensitive=cs)
+    else:
+        rx, irx, cs, igd = cfg
+        hl = recorder(E.RegexMatchingEventHandler, regexes=rx, ignore_regexes=irx, ignore_directories=igd, case_sensitive=cs)
+    for i, ev in enumerate(evs):
+        try:
+            r = check_pattern(ev, *cfg, hl=hl) if kind == "pattern" else check_regex(ev, *cfg, hl=hl)
+        except ValueError:
+            return None
+        if r:
+            return f"after {i} earlier event(s) on the same handler ({[repr(e) for e in evs[:i]][-2:]}): {r}"
+    return None
+
+
+def mk_ev(d, bytes_=False):
+    enc = (lambda x: x.encode()) if bytes_ else (lambda x: x)
+    cls = getattr(E, d["cls"])
+    return cls(enc(d["src"]), enc(d["dest"])) if "Moved" in d["cls"] else cls(enc(d["src"]))
+
+
 def replay(c):
     k = c["kind"]
+    if k == "history":
+        return check_history(c["handler"], tuple(c["cfg"]), [mk_ev(d, d.get("bytes", False)) for d in c["events"]])
     enc = (lambda s: s) if c.get("bytes") is not True else (lambda s: s.encode())
     if k == "filter":
         return check_filter(c["paths"], c["inc"], c["exc"], c["cs"])
@@ -190,6 +218,17 @@ def main():
             r = check_regex(ev, rx, irx, cs, igd)
             if r:
                 bat.fail("C15.regex-dispatch", r, dict(desc(ev, bytes_), kind="regex", rx=rx, irx=irx, cs=cs, igd=igd), "RegexMatchingEventHandler.dispatch")
+    # long-lived handlers: all ordered pairs of events over the path alphabet on one handler
+    evs = [e for e in mk_events("str") if type(e).__name__ in ("FileCreatedEvent", "FileMovedEvent", "DirMovedEvent", "FileDeletedEvent")]
+    pairs = list(itertools.permutations(evs, 2))
+    rng.shuffle(pairs)
+    cfgs = [("pattern", (["*.py"], None, True, False)), ("pattern", (["a*"], ["*.PY"], False, False)), ("regex", ([r".*\.py"], None, True, False)), ("regex", ([r"a"], [r".*\.tmp"], False, True))]
+    for kind, cfg in cfgs:
+        for a, b in pairs[: (1500 if TIER == "quick" else 20000)]:
+            bat.case(("history", kind, str(cfg), repr(a), repr(b)))
+            r = check_history(kind, cfg, [a, b])
+            if r:
+                bat.fail("C15.history-independence", r, {"kind": "history", "handler": kind, "cfg": list(cfg), "events": [desc(a, False), desc(b, False)]}, "PatternMatchingEventHandler.dispatch")
     plists = [[], ["a"], ["a.py", "A"], ["d/a.py", "b.PY", "a"], ["A", "a", "A"]]
     for paths, inc, exc, cs in itertools.product(plists, pls, pls, (True, False)):
         bat.case(("filter", str(paths), str(inc), str(exc), cs))
